@@ -428,18 +428,24 @@ struct TemplateCore {
                                                 continue;
                                             }
 
-                                            // Found '}' inside 'True' or 'False'.
+                                            // Found '}' inside 'True' or 'False': the attributes are
+                                            // scanned again when the real end of the tag is seen.
                                             is_child = true;
                                             parent_storage += storage;
-                                            storage        = &(tag.SubTags);
-                                            tag.TrueOffset = SizeT16(true_offset);
+                                            storage         = &(tag.SubTags);
+                                            tag.TrueOffset  = SizeT16(true_offset);
+                                            tag.TrueLength  = SizeT16{0};
+                                            tag.FalseOffset = SizeT16{0};
+                                            tag.FalseLength = SizeT16{0};
                                             break;
                                         }
                                     }
                                 } while (++offset < end_offset);
 
                                 // Set StartID
-                                if ((tag.TrueOffset != SizeT16{0}) || (tag.FalseOffset != SizeT16{0})) {
+                                if (is_child) {
+                                    // Not the end of this tag yet: nothing to validate.
+                                } else if ((tag.TrueOffset != SizeT16{0}) || (tag.FalseOffset != SizeT16{0})) {
                                     const TagBit *s_tag     = tag.SubTags.First();
                                     const TagBit *s_tag_end = tag.SubTags.End();
                                     SizeT32       id{0};
